@@ -21,6 +21,15 @@ func (e *Engine) assumptionList(prop string, keys []string) []string {
 			as = append(as, "type invariant assumed for "+name+": "+inv.Expr)
 		}
 	}
+	for k, f := range e.Contracts.Funcs {
+		if f.Trusted && !f.Extern {
+			kind := "contract assumed, body not verified"
+			if f.IsLemma {
+				kind = "meta-theory axiom (trusted lemma)"
+			}
+			as = append(as, kind+": "+k)
+		}
+	}
 	for _, n := range e.Notes {
 		as = append(as, n)
 	}
